@@ -80,8 +80,9 @@ class Variant:
         return [self.pos, self.ref, self.alt, self.kind, self.shift]
 
 
-def random_variants(rng, refseq, n, kinds, min_gap=30, margin=40, allow_shiftable=True):
-    """Well separated variants (>= min_gap between extended footprints), left-normalised."""
+def random_variants(rng, refseq, n, kinds, min_gap=30, margin=40, allow_shiftable=True, windows=None):
+    """Well separated variants (>= min_gap between extended footprints), left-normalised. windows: optional list of
+    (lo, hi) intervals the variants are confined to (islands)."""
     out = []
     L = len(refseq)
     tries = 0
@@ -89,7 +90,11 @@ def random_variants(rng, refseq, n, kinds, min_gap=30, margin=40, allow_shiftabl
     while len(out) < n and tries < n * 30:
         tries += 1
         kind = rng.choice(kinds)
-        pos = rng.randrange(margin, L - margin)
+        if windows:
+            wlo, whi = rng.choice(windows)
+            pos = rng.randrange(wlo + margin, whi - margin)
+        else:
+            pos = rng.randrange(margin, L - margin)
         if kind == "snv":
             ref = refseq[pos]
             alt = rng.choice([b for b in BASES if b != ref])
@@ -272,8 +277,16 @@ def simulate(rng, tmp, p):
     het_prob = p.get("het_prob", 0.7)
     for c in sim.chroms:
         L = p.get("chrom_len", 3000)
+        windows = None
+        if p.get("islands"):
+            # (k, island_len, gap): variants and reads live in k islands separated by read-free stretches of `gap` bases
+            k, ilen, gap = p["islands"]
+            L = k * ilen + (k - 1) * gap
+            windows = [(i * (ilen + gap), i * (ilen + gap) + ilen) for i in range(k)]
+        sim.windows = getattr(sim, "windows", {})
+        sim.windows[c] = windows
         refseq = random_reference(rng, L)
-        vs = random_variants(rng, refseq, p.get("n_var", 12), kinds, p.get("min_gap", 30), p.get("margin", 40), p.get("allow_shiftable", True))
+        vs = random_variants(rng, refseq, p.get("n_var", 12), kinds, p.get("min_gap", 30), p.get("margin", 40), p.get("allow_shiftable", True), windows=windows)
         sim.ref[c] = refseq
         sim.variants[c] = vs
         nv = len(vs)
@@ -334,13 +347,35 @@ def simulate(rng, tmp, p):
         vs = sim.variants[c]
         # forbidden end zones
         multi = [(v.pos - 25, v.end + v.shift + 25 + (len(v.alt) if v.kind == "ins" else 0)) for v in vs if v.kind != "snv"]
+        windows = sim.windows.get(c)
         for s in p.get("read_samples", samples):
-            nfrag = max(1, int(depth * L / ((rl_min + rl_max) / 2)))
+            covered = L if not windows else sum(hi - lo for lo, hi in windows)
+            nfrag = max(1, int(depth * covered / ((rl_min + rl_max) / 2)))
+            molecules = None
+            if p.get("barcodes"):
+                # linked reads: per island a few molecules, each one haplotype and one barcode; barcodes are unique within an
+                # island but drawn from a small pool, so the same barcode recurs on another island (> cutoff away), possibly
+                # on the other haplotype (a barcode collision between distant molecules)
+                pool = ["ACGT%04d" % i for i in range(p["barcodes"])]
+                molecules = {}
+                for wi in range(len(windows or [None])):
+                    bcs = rng.sample(pool, min(len(pool), rng.randint(2, 4)))
+                    molecules[wi] = [(bc, rng.randint(0, 1)) for bc in bcs]
             for _ in range(nfrag):
                 h = rng.randint(0, 1)
                 fl = rng.randint(rl_min, rl_max)
-                a = rng.randrange(-fl // 2, L - fl // 2)
-                a, b = max(0, a), min(L, a + fl)
+                bx = None
+                if windows:
+                    wi = rng.randrange(len(windows))
+                    wlo, whi = windows[wi]
+                    a = rng.randrange(wlo - fl // 2, whi - fl // 2)
+                    a, b = max(wlo, a), min(whi, a + fl)
+                else:
+                    wi = 0
+                    a = rng.randrange(-fl // 2, L - fl // 2)
+                    a, b = max(0, a), min(L, a + fl)
+                if molecules:
+                    bx, h = rng.choice(molecules[wi])
                 if vs and rng.random() < p.get("edge_frac", 0.0):
                     # snap one end of the fragment to the neighbourhood of a variant (first/last aligned base cases)
                     v = rng.choice(vs)
@@ -393,7 +428,7 @@ def simulate(rng, tmp, p):
                                 sl[i] = rng.choice([bb for bb in BASES if bb != sl[i]])
                         seq = "".join(sl)
                     sim.reads.append(
-                        {"name": name, "chrom": c, "sample": s, "hap": h, "start": x, "cigar": cig, "seq": seq, "part": k, "nparts": len(built)}
+                        {"name": name, "chrom": c, "sample": s, "hap": h, "start": x, "cigar": cig, "seq": seq, "part": k, "nparts": len(built), "bx": bx}
                     )
     # ---------- BAM(s)
     header = {
@@ -433,6 +468,8 @@ def simulate(rng, tmp, p):
                     a.next_reference_start = mate["start"]
                 a.flag = flag
                 a.set_tag("RG", "rg_" + r["sample"])
+                if r.get("bx"):
+                    a.set_tag("BX", r["bx"] + "-" + r["sample"][-1])
                 out.write(a)
         pysam.index(path)
         sim.bams.append(path)
